@@ -1,6 +1,7 @@
 package gen
 
 import (
+	"fmt"
 	"strings"
 
 	"pgregory.net/rapid"
@@ -25,17 +26,20 @@ import (
 // Every style knob below is meaning-preserving (C13 relies on that).
 
 type Style struct {
-	NL            string // "\n", "\r\n", "\r"
-	Indent        string // per level
-	MultiLine     bool   // annotations as /* ... */ instead of // ...
-	SpreadRules   bool   // (multi-line only) one rule per line inside the rule object
-	QuoteNames    bool   // rule names in quotes
-	TrailingComma bool   // trailing comma inside the rule object
-	Comments      int    // 0 none, 1 '#' line comments on own lines, 2 also '###' blocks, 3 end-of-line '#' comments as well
-	EmptyAnn      int    // >0: every EmptyAnn-th value without rules and note gets an empty "//" annotation
-	BlankLines    bool   // blank lines between properties
+	NL               string // "\n", "\r\n", "\r"
+	Indent           string // per level
+	MultiLine        bool   // annotations as /* ... */ instead of // ...
+	SpreadRules      bool   // (multi-line only) one rule per line inside the rule object
+	QuoteNames       bool   // rule names in quotes
+	TrailingComma    bool   // trailing comma inside the rule object
+	Comments         int    // 0 none, 1 '#' line comments on own lines, 2 also '###' blocks, 3 end-of-line '#' comments as well
+	MixedAnn         int    // >0: annotations alternate between the inline and the multi-line form (1: first inline, 2: first multi-line)
+	AutoItemNotes    bool   // enum items inside multi-line annotations get an inline note each (whatever the model says)
+	EmptyAnn         int    // >0: every EmptyAnn-th value without rules and note gets an empty "//" annotation
+	NoteNextLine     bool   // note-only annotations of values that no comma follows go to the next line (every other one)
+	BlankLines       bool   // blank lines between properties
 	SpaceBeforeColon bool
-	RuleOrder     func(n int) []int // permutation of rule indexes (nil = as written)
+	RuleOrder        func(n int) []int // permutation of rule indexes (nil = as written)
 	// Per-annotation override hook (nil = use the fields above)
 	Pick func(label string, n int) int
 }
@@ -43,10 +47,12 @@ type Style struct {
 func DefaultStyle() *Style { return &Style{NL: "\n", Indent: "  "} }
 
 type printer struct {
-	b  []byte
-	st *Style
-	cc int // comment counter
-	ea int // empty-annotation counter
+	b       []byte
+	st      *Style
+	cc      int  // comment counter
+	ea      int  // empty-annotation counter
+	nn      int  // next-line-note counter
+	ann     int  // annotation counter (MixedAnn)
 	inMulti bool // inside a /* */ annotation
 }
 
@@ -117,6 +123,10 @@ func (p *printer) annotation(n *ref.SNode, level int) {
 	p.w(" ")
 	n.AnnBegin = len(p.b)
 	multi := p.st.MultiLine
+	if p.st.MixedAnn > 0 {
+		multi = (p.ann+p.st.MixedAnn)%2 == 0
+		p.ann++
+	}
 	p.inMulti = multi
 	defer func() { p.inMulti = false }()
 	if multi {
@@ -185,7 +195,7 @@ func (p *printer) ruleValue(r *ref.SRule, spread bool, level int) {
 	case ref.RVEnumRef:
 		p.w(r.EnumRef)
 	case ref.RVEnum:
-		noted := false
+		noted := p.st.AutoItemNotes && len(r.Enum) > 0
 		for _, it := range r.Enum {
 			noted = noted || it.Comment != ""
 		}
@@ -201,6 +211,8 @@ func (p *printer) ruleValue(r *ref.SRule, spread bool, level int) {
 				}
 				if it.Comment != "" {
 					p.w(" // " + it.Comment)
+				} else if p.st.AutoItemNotes {
+					p.w(fmt.Sprintf(" // item %d", i))
 				}
 			}
 			p.w(p.st.NL)
@@ -258,6 +270,15 @@ func (p *printer) node(n *ref.SNode, level int, comma bool) {
 		p.w(n.Tok)
 		n.End = len(p.b) - 1
 		p.w(c)
+		if p.st.NoteNextLine && !comma && len(n.Rules) == 0 && n.Note != "" {
+			// a note-only annotation may stand on the line after its value when no comma follows
+			// (last element of a container, root scalar)
+			p.nn++
+			if p.nn%2 == 1 {
+				p.w(p.st.NL)
+				p.indent(level)
+			}
+		}
 		p.annotation(n, level)
 		p.eolComment()
 	case ref.SRef:
